@@ -103,6 +103,10 @@ def run_task(task, acc):
             ramp = [v + 2.0 * i for i, v in enumerate(p)]
             for series in (p, ramp, list(reversed(ramp))):
                 yield dict(fn="pressure", p=list(series))
+            big = float(2 ** 25)
+            for q in itertools.product((0.0, 1.0, 2.0, 3.0), repeat=4):
+                yield dict(fn="pressure", p=[big + v for v in q])
+                yield dict(fn="pressure", p=[big + v for v in q], carrier="list")
         run_cases(acc, gen(), check_case)
         return
     if task[0] == "dens":
